@@ -1,6 +1,7 @@
 package rules
 
 import (
+	"go/constant"
 	"go/token"
 
 	"golang.org/x/tools/go/ssa"
@@ -141,4 +142,9 @@ type condFact struct {
 	Cond  ssa.Value
 	Val   bool
 	Block *ssa.BasicBlock
+}
+
+// isZeroIntConst reports whether k is the integer constant 0.
+func isZeroIntConst(k *ssa.Const) bool {
+	return k != nil && k.Value != nil && k.Value.Kind() == constant.Int && constant.Sign(k.Value) == 0
 }
